@@ -452,6 +452,63 @@ pub fn burst_case(rng: &mut Rng, idx: u64, id: String) -> Case {
     case
 }
 
+/// many registrations made by callbacks (which run on the router thread) within one select() batch: the wake-up channel
+/// must not fill up and block the router thread on its own wake-up (defect D15, fixed by coalescing wake-ups)
+pub fn selfwake_case(rng: &mut Rng, id: String) -> Case {
+    let mut case = Case::new(id);
+    let nroutes = rng.range(2, 3) as usize;
+    let per = rng.range(180, 260);
+    let proxy = Arc::new(RouterProxy::new());
+    let count = Arc::new(AtomicUsize::new(0));
+    let mut keep = Vec::new();
+    let mut rxs = Vec::new();
+    for _ in 0..nroutes {
+        let (tx, rx) = ipc::channel::<u64>().unwrap();
+        for i in 0..per {
+            tx.send(i).unwrap();
+        }
+        keep.push(tx);
+        rxs.push(rx);
+    }
+    for rx in rxs {
+        let p2 = proxy.clone();
+        let c2 = count.clone();
+        proxy.add_route(
+            rx.to_opaque(),
+            Box::new(move |_m| {
+                let (_t, r) = ipc::channel::<u64>().unwrap();
+                p2.add_route(r.to_opaque(), Box::new(|_| {}));
+                c2.fetch_add(1, Ordering::SeqCst);
+            }),
+        );
+    }
+    let total = per as usize * nroutes;
+    let t0 = Instant::now();
+    while count.load(Ordering::SeqCst) < total && t0.elapsed() < Duration::from_secs(5) {
+        std::thread::sleep(Duration::from_millis(2));
+    }
+    let ran = count.load(Ordering::SeqCst);
+    if ran < total {
+        case.fail(format!(
+            "router thread stuck: only {} of {} callbacks ran within 5 s ({} routes x {} queued messages, each callback registers a route)",
+            ran, total, nroutes, per
+        ));
+    }
+    let done = crate::util::with_watchdog(5, {
+        let p = proxy.clone();
+        move || p.shutdown()
+    });
+    if done.is_none() {
+        case.fail(format!("shutdown() did not return within 5 s after {} registrations made by callbacks", ran));
+        case.tags.push("deadlock".into());
+    }
+    case.pair("noop".into(), "ok".into());
+    case.nontrivial = true;
+    case.key = format!("selfwake:{}:{}", nroutes, per);
+    case.tags.push("mode=callbacks_register_routes_in_one_batch".into());
+    case
+}
+
 pub fn run(args: &[String]) {
     let mode = arg(args, "--mode").unwrap_or("seq".into());
     let thorough = arg(args, "--tier").as_deref() == Some("thorough");
@@ -463,6 +520,7 @@ pub fn run(args: &[String]) {
         let c = match mode.as_str() {
             "seq" => seq_case(&mut rng, format!("rseq-{}", i)),
             "burst" => burst_case(&mut rng, i, format!("rburst-{}", i)),
+            "selfwake" => selfwake_case(&mut rng, format!("rselfwake-{}", i)),
             _ => race_case(&mut rng, format!("rrace-{}", i)),
         };
         let abandon = c.tags.iter().any(|t| t == "deadlock") || (mode == "burst" && c.oracle.is_some());
